@@ -12,7 +12,10 @@ import (
 	mpmock "github.com/tendermint/tendermint/mempool/mock"
 	tmproto "github.com/tendermint/tendermint/proto/tendermint/types"
 	"github.com/tendermint/tendermint/proxy"
+	"github.com/tendermint/tendermint/rpc/core"
+	rpctypes "github.com/tendermint/tendermint/rpc/jsonrpc/types"
 	sm "github.com/tendermint/tendermint/state"
+	"github.com/tendermint/tendermint/store"
 	"github.com/tendermint/tendermint/types"
 	"pgregory.net/rapid"
 
@@ -51,9 +54,14 @@ type lookupHistory struct {
 	known        int
 	maxDist      int64
 	sweeps       int
-	restarts     int               // node restarts: state re-read from the store, new store handle and executor
-	lastRestart  int64             // tip at the last restart (records of heights >= lastRestart+2 were written by the restarted node)
-	afterRestart int               // successful indirect lookups of heights whose record the restarted node wrote
+	restarts     int   // node restarts: state re-read from the store, new store handle and executor
+	lastRestart  int64 // tip at the last restart (records of heights >= lastRestart+2 were written by the restarted node)
+	afterRestart int   // successful indirect lookups of heights whose record the restarted node wrote
+	pbase        int64 // lowest height with a consensus-params record / lowest block the node holds (= base, except base+1 on a state-synced node)
+	storeStart   int64 // lowest height the store ever got records for (genesis height, or the snapshot height of a state sync)
+	syncs        int
+	rpcAsked     int               // heights asked through the RPC endpoint
+	rpcPaged     int               // ... answered on more than one page
 	journal      *lib.CrashJournal // every mutation of the state DB, in order
 	crashPoints  int               // write boundaries inside block execution at which the store was reopened and audited
 	startKeys    []int             // the validators the chain starts with (genesis file, or the application's InitChain answer)
@@ -78,9 +86,9 @@ func (lh *lookupHistory) target(h int64) (int64, string) {
 	switch {
 	case lc == h:
 		return h, "direct"
-	case ck == h && ck >= lh.init:
+	case ck == h && ck >= lh.storeStart:
 		return h, "direct-checkpoint"
-	case ck > lc && ck >= lh.init:
+	case ck > lc && ck >= lh.storeStart:
 		return ck, "via-checkpoint"
 	default:
 		return lc, "via-lastchanged"
@@ -154,7 +162,7 @@ func (lh *lookupHistory) sweep() {
 		}
 		// consensus params: record for h exists for h <= tip+1
 		pgot, perr := c.StateStore.LoadConsensusParams(h)
-		pobliged := h >= lh.base && h <= tip+1
+		pobliged := h >= lh.pbase && h <= tip+1
 		var pwant *tmproto.ConsensusParams
 		if st, ok := c.States[h-1]; ok && h >= lh.init {
 			pwant = &st.ConsensusParams
@@ -174,6 +182,126 @@ func (lh *lookupHistory) sweep() {
 			}
 		}
 	}
+	lh.askRPC()
+}
+
+// spanStore is the block store of the node as far as the RPC layer looks at it for this endpoint: lowest and highest
+// block height (the harness does not fill the real block store: NoStoreBlocks).
+type spanStore struct {
+	*store.BlockStore
+	base, height int64
+}
+
+func (s spanStore) Base() int64   { return s.base }
+func (s spanStore) Height() int64 { return s.height }
+
+// askRPC asks for every height the way a client does: rpc/core.Validators on an environment that points at the node's
+// stores, page by page with a drawn page size. Every page must be exactly the corresponding slice of the set in force
+// at that height (members in order, powers, priorities), Total the size of the set, and the pages together the whole
+// set. (The answer has no proposer field: that part of the clause can only be checked through LoadValidators.)
+func (lh *lookupHistory) askRPC() {
+	t, c := lh.t, lh.c
+	tip := c.Tip()
+	if tip == 0 || tip < lh.pbase {
+		return
+	}
+	core.SetEnvironment(&core.Environment{StateStore: c.StateStore, BlockStore: spanStore{c.BlockStore, lh.pbase, tip},
+		ConsensusReactor: &consensus.Reactor{}})
+	perPage := rapid.IntRange(1, 6).Draw(t, "rpc.per_page")
+	for h := lh.pbase; h <= tip+1; h++ {
+		want := c.ValidatorsAt(h)
+		checkPages(t, fmt.Sprintf("height %d (base %d, tip %d)", h, lh.pbase, tip), &h, h, want, &perPage, perPage)
+		lh.rpcAsked++
+		if len(want.Validators) > perPage {
+			lh.rpcPaged++
+		}
+	}
+	// no height: the latest set the node knows a block for, i.e. the one of tip+1
+	checkPages(t, "latest", nil, tip+1, c.ValidatorsAt(tip+1), &perPage, perPage)
+	for _, h := range []int64{lh.pbase - 1, tip + 2} {
+		hh, one := h, 1
+		if res, err := core.Validators(&rpctypes.Context{}, &hh, &one, &perPage); err == nil {
+			t.Fatalf("RPC validators(height %d) answered (%d members) although the node holds blocks %d..%d", h, res.Count, lh.pbase, tip)
+		}
+	}
+}
+
+// checkPages reads one height page by page. eff is the page size the documentation promises for perPagePtr.
+func checkPages(t *rapid.T, what string, heightPtr *int64, height int64, want *types.ValidatorSet, perPagePtr *int, eff int) {
+	n := len(want.Validators)
+	pages := (n + eff - 1) / eff
+	if pages == 0 {
+		pages = 1
+	}
+	for p := 1; p <= pages; p++ {
+		page := p
+		res, err := core.Validators(&rpctypes.Context{}, heightPtr, &page, perPagePtr)
+		if err != nil {
+			t.Fatalf("RPC validators %s page %d/%d (page size %d, %d members): %v", what, p, pages, eff, n, err)
+		}
+		lo, hi := (p-1)*eff, p*eff
+		if hi > n {
+			hi = n
+		}
+		if res.BlockHeight != height || res.Total != n || res.Count != len(res.Validators) || res.Count != hi-lo {
+			t.Fatalf("RPC validators %s page %d/%d (page size %d): block_height %d count %d (len %d) total %d, expected height %d count %d total %d",
+				what, p, pages, eff, res.BlockHeight, res.Count, len(res.Validators), res.Total, height, hi-lo, n)
+		}
+		for i, v := range res.Validators {
+			if recOf(v) != recOf(want.Validators[lo+i]) {
+				t.Fatalf("RPC validators %s page %d/%d (page size %d): entry %d is {%X power %d prio %d}, member #%d of the set in force is {%X power %d prio %d}",
+					what, p, pages, eff, i, v.Address, v.VotingPower, v.ProposerPriority, lo+i, want.Validators[lo+i].Address,
+					want.Validators[lo+i].VotingPower, want.Validators[lo+i].ProposerPriority)
+			}
+		}
+	}
+	beyond := pages + 1
+	if res, err := core.Validators(&rpctypes.Context{}, heightPtr, &beyond, perPagePtr); err == nil {
+		t.Fatalf("RPC validators %s page %d of %d answered with %d members", what, beyond, pages, res.Count)
+	}
+}
+
+// stateSync replaces the node by one that joins through state sync at the current tip H: an empty state store that
+// gets the state of height H through Store.Bootstrap, exactly as the state provider assembles it (the three sets of
+// H, H+1, H+2, "validators last changed" = H+2, "params last changed" = H+1), then read back. The synced node holds
+// validator records from H and params / blocks from H+1 on.
+func (lh *lookupHistory) stateSync() bool {
+	t, c := lh.t, lh.c
+	H := c.Tip()
+	if H == 0 {
+		return false
+	}
+	st := c.State.Copy()
+	st.LastHeightValidatorsChanged = H + 2
+	st.LastHeightConsensusParamsChanged = H + 1
+	journal := lib.NewCrashJournal()
+	db := journal.NewDB("state")
+	ss := sm.NewStore(db, sm.StoreOptions{DiscardABCIResponses: c.Spec.DiscardABCI})
+	if err := ss.Bootstrap(st); err != nil {
+		t.Fatalf("Bootstrap at %d: %v", H, err)
+	}
+	loaded, err := ss.Load()
+	if err != nil || loaded.IsEmpty() {
+		t.Fatalf("Load after Bootstrap at %d: %v", H, err)
+	}
+	for _, p := range []struct {
+		name      string
+		was, back *types.ValidatorSet
+	}{{"Validators", c.State.Validators, loaded.Validators}, {"NextValidators", c.State.NextValidators, loaded.NextValidators},
+		{"LastValidators", c.State.LastValidators, loaded.LastValidators}} {
+		if d := snapOf(p.was).diff(snapOf(p.back), true); d != "" {
+			t.Fatalf("state sync at %d: %s of the bootstrapped state differ from the chain's: %s", H, p.name, d)
+		}
+	}
+	c.StateDB, c.StateStore, c.State = db, ss, loaded
+	c.Exec = sm.NewBlockExecutor(c.StateStore, log.NewNopLogger(), c.Proxy.Consensus(), mpmock.Mempool{}, sm.EmptyEvidencePool{})
+	lh.journal = journal
+	lh.base, lh.pbase, lh.storeStart = H, H+1, H
+	lh.valsAt = map[int64]bool{H: true, H + 1: true, H + 2: true}
+	lh.parsAt = map[int64]bool{H + 1: true}
+	lh.syncs++
+	lh.trace = append(lh.trace, fmt.Sprintf("statesync@%d", H))
+	return true
 }
 
 // tolerated: the mismatch is exactly the listed finding (only priorities/proposer differ, the lookup jumps k >= 2
@@ -333,7 +461,7 @@ func (lh *lookupHistory) crashProbe(j0, j1 int, label string) {
 			if d := snapOf(want).diff(snapOf(got), true); d != "" {
 				t.Fatalf("%s: LoadValidators(%d) is not the set in force at %d: %s\ntrace %v", where, h, h, d, lh.trace)
 			}
-			if h <= tip+1 {
+			if h >= lh.pbase && h <= tip+1 {
 				pg, err := store.LoadConsensusParams(h)
 				if err != nil {
 					t.Fatalf("%s: LoadConsensusParams(%d) fails inside [base %d, tip+1 %d]: %v\ntrace %v", where, h, lh.base, tip+1, err, lh.trace)
@@ -412,7 +540,7 @@ func TestHistoricalLookup(t *testing.T) {
 		}
 		defer c.Close()
 		lh := &lookupHistory{t: t, c: c, init: init, base: init, valsAt: map[int64]bool{init: true}, parsAt: map[int64]bool{init: true},
-			batches: map[int64][]chg{}, cls: map[string]bool{}, journal: journal, startKeys: keys, startPowers: powers}
+			batches: map[int64][]chg{}, cls: map[string]bool{}, pbase: init, storeStart: init, journal: journal, startKeys: keys, startPowers: powers}
 		// how the chain starts: from the genesis state as it is, or through the node's handshake with an application
 		// whose InitChain answer is empty / carries the validator set (and possibly consensus params) to start with
 		startKind := rapid.SampledFrom([]string{"genesis-state", "genesis-state", "handshake", "handshake-initchain-validators",
@@ -433,7 +561,7 @@ func TestHistoricalLookup(t *testing.T) {
 		}
 		accepted, paramChanges, prunes := 0, 0, 0
 		for s := 0; s < steps; s++ {
-			act := rapid.SampledFrom([]string{"plain", "plain", "plain", "plain", "plain", "vals", "vals", "vals", "params", "both", "prune", "prune", "sweep", "restart"}).Draw(t, "act")
+			act := rapid.SampledFrom([]string{"plain", "plain", "plain", "plain", "plain", "vals", "vals", "vals", "params", "both", "prune", "prune", "sweep", "restart", "statesync"}).Draw(t, "act")
 			if act == "prune" {
 				tip := c.Tip()
 				if tip == 0 || tip <= lh.base {
@@ -454,7 +582,7 @@ func TestHistoricalLookup(t *testing.T) {
 						t.Fatalf("PruneStates(%d,%d) with tip %d: %v\ntrace %v", from, to, tip, err, lh.trace)
 					}
 					prunes++
-					lh.base = to
+					lh.base, lh.pbase = to, to
 					lh.trace = append(lh.trace, fmt.Sprintf("prune(%d,%d)", from, to))
 					lh.sweep()
 					continue
@@ -463,6 +591,13 @@ func TestHistoricalLookup(t *testing.T) {
 			if act == "restart" {
 				lh.restart()
 				continue
+			}
+			if act == "statesync" {
+				if lh.stateSync() {
+					lh.sweep()
+					continue
+				}
+				act = "plain"
 			}
 			if act == "sweep" {
 				lh.trace = append(lh.trace, "sweep")
@@ -551,7 +686,8 @@ func TestHistoricalLookup(t *testing.T) {
 			fmt.Sprintf("params-indirect:%v", lh.parsInd > 0), fmt.Sprintf("answered-below-base:%v", lh.below > 0), "max-distance:" + distBucket,
 			fmt.Sprintf("known-finding-tolerated:%v", lh.known > 0), fmt.Sprintf("restarted:%v", lh.restarts > 0),
 			fmt.Sprintf("indirect-lookup-of-height-written-after-restart:%v", lh.afterRestart > 0),
-			fmt.Sprintf("crash-points-audited>=1:%v", lh.crashPoints > 0)}
+			fmt.Sprintf("crash-points-audited>=1:%v", lh.crashPoints > 0), fmt.Sprintf("state-synced:%v", lh.syncs > 0),
+			fmt.Sprintf("rpc-heights-on-several-pages>=1:%v", lh.rpcPaged > 0)}
 		for k := range lh.cls {
 			cls = append(cls, k)
 		}
